@@ -781,6 +781,8 @@ class Fxp():
                     val = val.astype(np.complex128)
                 elif val.dtype.kind in 'iu' and val.dtype != np.int64 and val.size > 0 and int(np.max(val)) < 2**62:
                     val = val.astype(np.int64)
+                if vdtype is not None and vdtype != complex and np.issubdtype(vdtype, np.unsignedinteger):
+                    vdtype = int    # (the transformed values can be negative: they must not be cast back to an unsigned type)
             if self.bias != 0:
                 if val.dtype.kind in 'iu' and val.size > 0 and max(abs(int(np.max(val))), abs(int(np.min(val)))) >= 2**62:
                     val = val.astype(object)    # integers close to the 64 bits limits: the bias is subtracted with python integers
